@@ -13,6 +13,7 @@ from sim.core import EndRun, close
 from sim.models.pcacd import Model
 
 PROP = "C11"
+FORKS = True      # snapshot / restore events (core.Ctx.maybe_fork)
 LEVEL = "exploration"
 RULE = (
     "seeded multivariate streams (2-4 features, 3w-8w samples, level / variance / correlation shifts; plus streams that repeat one "
@@ -74,6 +75,7 @@ def run(case, ctx):
     drifts = rebuilt = 0
     for t, row in enumerate(case["events"]):
         ctx.step = t
+        det = ctx.maybe_fork(det)
         x = np.array([row], dtype=float)
         ctx.call("C11:update", det.update, x.copy())
         ctx.sim_time += 1
